@@ -1,6 +1,7 @@
 """R-ARITH: arithmetic overflow asserts are discharged by simple range reasoning
 or listed in the reviewed table (thorough tier)."""
 from . import cfg, common, panics
+from .report import Pool
 
 WIDTH = {"u8": 8, "u16": 16, "u32": 32, "u64": 64, "usize": 64, "i8": 8, "i16": 16, "i32": 32, "i64": 64,
          "isize": 64, "u128": 128, "i128": 128}
@@ -146,6 +147,8 @@ def _is_usize_place(fn, op):
 
 def scan(rule, crate, fn_pred, table):
     n = 0
+    pool = Pool(table, getattr(crate, "config", "default"), {f.path for f in crate.fns if fn_pred(f)},
+                {f.path for f in crate.fns})
     for fn in crate.fns:
         if not fn_pred(fn):
             continue
@@ -154,24 +157,27 @@ def scan(rule, crate, fn_pred, table):
             continue
         defs = common.defs_of(fn)
         idom = cfg.dominators(fn)
-        counts = {}
         for it in inv:
             n += 1
             why = discharge(fn, it, defs, idom)
             if why:
                 rule.ok("%s: %s overflow check discharged: %s" % (fn.path, it["detail"], why), fn, it["line"])
                 continue
-            counts.setdefault("%s | overflow:%s" % (fn.path, it["detail"]), []).append(it)
-        for key, items in counts.items():
-            ent = table.get(key)
-            allowed = ent["count"] if ent else 0
-            for i, it in enumerate(items):
-                if i < allowed:
-                    rule.ok("%s (reviewed: %s)" % (key, ent["reason"]), fn, it["line"])
-                else:
-                    rule.violation("%s::%s" % (crate.name, fn.path), "overflow:%s" % it["detail"],
-                                   "%s: arithmetic `%s` at line %s can overflow (debug builds panic) and is neither "
-                                   "discharged by range reasoning nor in the reviewed table (%d allowed, %d found)"
-                                   % (fn.path, it["detail"], it["line"], allowed, len(items)), fn.loc(it["line"]))
+            detail = "overflow:%s" % it["detail"]
+
+            def on_ok(ent, moved, fn=fn, it=it, detail=detail):
+                rule.ok("%s | %s (reviewed%s: %s)" % (fn.path, detail, " for %s, moved" % moved if moved else "", ent["reason"]),
+                        fn, it["line"])
+
+            def on_bad(fn=fn, it=it, detail=detail):
+                rule.violation("%s::%s" % (crate.name, fn.path), detail,
+                               "%s: arithmetic `%s` at line %s can overflow (debug builds panic) and is neither "
+                               "discharged by range reasoning nor in the reviewed table"
+                               % (fn.path, it["detail"], it["line"]), fn.loc(it["line"]))
+
+            pool.site(fn.path, detail, on_ok, on_bad)
+    pool.settle()
+    if pool.unused():
+        rule.note("reviewed constructs no longer present: %s" % sorted(pool.unused().items()))
     rule.note("overflow asserts examined: %d" % n)
     return n
